@@ -184,12 +184,32 @@ impl LineGen {
     }
 }
 
-pub const MALFORMED: [&str; 14] =
-    ["empty", "semicolon_only", "star_semicolon", "too_short", "odd_digits", "non_hex", "non_ascii_inside", "non_ascii_first", "invalid_utf8", "all_zero_short", "all_zero_long", "undecodable_df", "truncated_long_frame", "overlong_garbage"];
+pub const MALFORMED: [&str; 16] =
+    ["at_prefixed_short", "random_printable", "empty", "semicolon_only", "star_semicolon", "too_short", "odd_digits", "non_hex", "non_ascii_inside", "non_ascii_first", "invalid_utf8", "all_zero_short", "all_zero_long", "undecodable_df", "truncated_long_frame", "overlong_garbage"];
 
 fn malformed_line(rng: &mut Rng, class: &str, lg: &mut LineGen) -> Vec<u8> {
     lg.ctr += 1;
     match class {
+        // other feed dialects' prefixes, too short to carry a frame (e.g. a bare MLAT timestamp)
+        "at_prefixed_short" => {
+            let k = rng.usize_below(13);
+            let mut v = vec![*rng.pick(&[b'@', b'@', b'%', b'<', b':', b'#'])];
+            v.extend((0..k).map(|_| b"0123456789abcdefABCDEF"[rng.usize_below(22)]));
+            v.extend_from_slice(b";\n");
+            v
+        }
+        // arbitrary printable bytes that are certainly not `*<hex>;`
+        "random_printable" => {
+            let n = rng.usize_below(40);
+            let mut v: Vec<u8> = vec![*rng.pick(&[b'!', b'$', b'&', b'+', b'-', b'.', b'>', b'=', b'?', b'~', b'g', b' '])];
+            v.extend((0..n).map(|_| 0x20 + rng.below(0x5f) as u8));
+            v.push(b'z');
+            if rng.coin() {
+                v.push(b';');
+            }
+            v.push(b'\n');
+            v
+        }
         "empty" => b"\n".to_vec(),
         "semicolon_only" => b";\n".to_vec(),
         "star_semicolon" => b"*;\n".to_vec(),
@@ -704,7 +724,9 @@ pub fn execute(sc: &K16) -> Outcome {
 
 fn leak_fault_name(f: &str) -> &'static str {
     // fault names are a closed set; map to 'static for the counters
-    const NAMES: [&str; 27] = [
+    const NAMES: [&str; 29] = [
+        "malformed_line:at_prefixed_short",
+        "malformed_line:random_printable",
         "backlog_burst",
         "connect_refused",
         "connect_timeout",
